@@ -167,6 +167,8 @@ fn base_workbook() -> Result<UserModel<'static>, String> {
         ("B1", "=A1*2"), ("B2", "='Data Sheet'!A1+1"), ("B3", "=SUM('Data Sheet'!A1:A3)"), ("B4", "=Missing!A1"), ("B5", "=TaxRate*A1"), ("B6", "=LocalN+1"), ("B7", "=SUM(Block)"),
         ("C1", "=IF(A1>1,\"yes\",\"no\")"), ("C2", "=TEXT(A2,\"0.00\")"), ("C3", "=A1/0"), ("C4", "=TRUE"), ("C5", "=\"x\"&A1"), ("C6", "=AND(A1>0,OR(A4>0,A5>0))"),
         ("D1", "=S3!A1+'Data Sheet'!B2"), ("D3", "=1.5+A1"), ("D4", "=ROUND(A3/3,2)"), ("D5", "=SUM(A:A)"), ("D6", "=MAX(A1:A5)-MIN(A1:A5)"), ("D7", "=NoSuchName+1"),
+        ("F1", "=1+TaxRate"), ("F2", "=A1-TaxRate"), ("F3", "=TaxRate+TaxRate"), ("F4", "=-TaxRate"), ("F5", "=TaxRate^2"), ("F6", "=2^TaxRate"), ("F7", "=A1&TaxRate"),
+        ("G1", "=TaxRate>1"), ("G2", "=1<TaxRate"), ("G3", "=IF(TaxRate>1,TaxRate,0)"), ("G4", "=TaxRate%"), ("G5", "=(TaxRate)*2"), ("G6", "=SUM(1,TaxRate)"), ("G7", "=Dbl(TaxRate)-Dbl(LocalN)"),
         ("E1", "=Dbl(A1)"), ("E2", "=DATE(2024,2,29)"), ("E3", "=IFERROR(C3,\"err\")"), ("E4", "='Missing Sheet'!B2:B3"), ("E5", "=LEN(C1)"), ("E6", "hello"), ("E7", "'007"),
     ];
     let s2 = [("A1", "10"), ("A2", "2.25"), ("A3", "3"), ("B2", "=Sheet1!A1+A1"), ("B3", "=LocalN*2"), ("B4", "=SUM(Sheet1!A1:A5)/COUNT(Sheet1!A1:A5)"), ("B5", "=TaxRate")];
@@ -319,7 +321,29 @@ pub fn run(out_dir: &str, seed: u64, runs: usize, steps: usize) -> Result<Value,
                     diff.insert("copy_vs_source".to_string(), json!(ds));
                 }
             }
-            writeln!(side, "{}", json!({"l": line_no, "run": run, "program": program, "diff": diff, "err": res.err(), "lang": um.get_language(), "locale": um.get_locale()})).ok();
+            writeln!(side, "{}", json!({"l": line_no, "run": run, "program": program, "diff": diff, "err": res.clone().err(), "lang": um.get_language(), "locale": um.get_locale()})).ok();
+            // after a switch, everything stored is read again (as opening the file would): still the same workbook
+            if (act == "set_lang" || act == "set_locale") && res.is_ok() {
+                let lang: &'static str = Box::leak(um.get_language().into_boxed_str());
+                if let Ok(mut u) = UserModel::from_bytes(&um.to_bytes(), lang) {
+                    u.evaluate();
+                    let reread = project(&u);
+                    *kinds.entry("reparse:ok".to_string()).or_insert(0) += 1;
+                    writeln!(trace, "{}", json!({"ev": "reparse", "ok": true, "args": args, "before": ids(&after, &mut it), "after": ids(&reread, &mut it)})).ok();
+                    line_no += 1;
+                    let mut diff = Map::new();
+                    for k in ["vals", "stored", "names", "cfs"] {
+                        if after[k] != reread[k] {
+                            let mut ds = vec![];
+                            crate::project::all_diffs(&after[k], &reread[k], String::new(), &mut ds, 12);
+                            diff.insert(k.to_string(), json!(ds));
+                        }
+                    }
+                    let mut prog2 = program.clone();
+                    prog2.push(json!({"act": "reparse", "args": {}}));
+                    writeln!(side, "{}", json!({"l": line_no, "run": run, "program": prog2, "diff": diff, "lang": um.get_language(), "locale": um.get_locale()})).ok();
+                }
+            }
         }
     }
     trace.flush().ok();
